@@ -54,6 +54,24 @@ def frame_by_plain_id(db, plain_id):
     return None
 
 
+def decode_comment(text):  # type: (str) -> str
+    """Text of a description line: the enclosing quotes and the closing semicolon are syntax, not content."""
+    text = text.strip()
+    if text.endswith(';'):
+        text = text[:-1].rstrip()
+    if len(text) >= 2 and text[0] == '"' and text[-1] == '"':
+        text = text[1:-1]
+    return text
+
+
+def decode_value(text):  # type: (str) -> str
+    """Parameter value: BUSMASTER writes numbers bare and texts in quotes."""
+    text = text.strip()
+    if len(text) >= 2 and text[0] == '"' and text[-1] == '"':
+        return text[1:-1]
+    return text
+
+
 def decode_define(line):  # type: (str) -> typing.Tuple[str, str, str]
     (define, value_type, value) = line.split(',', 2)
     value_type = value_type.strip()
@@ -89,7 +107,7 @@ def load(f, **options):  # type: (typing.IO, **typing.Any) -> canmatrix.CanMatri
                 mode = ''
             else:
                 (bo_id, tem_s, signal_name, comment) = line.split(' ', 3)
-                comment = comment.replace('"', '').replace(';', '')
+                comment = decode_comment(comment)
                 frame_by_plain_id(db, int(bo_id)).signal_by_name(
                     signal_name).add_comment(comment)
 
@@ -99,7 +117,7 @@ def load(f, **options):  # type: (typing.IO, **typing.Any) -> canmatrix.CanMatri
                 mode = ''
             else:
                 (bu_name, comment) = line.split(' ', 1)
-                comment = comment.replace('"', '').replace(';', '')
+                comment = decode_comment(comment)
                 db.ecu_by_name(bu_name).add_comment(comment)
 
         if mode == 'FrameDescription':
@@ -108,7 +126,7 @@ def load(f, **options):  # type: (typing.IO, **typing.Any) -> canmatrix.CanMatri
                 mode = ''
             else:
                 (bo_id, tem_s, comment) = line.split(' ', 2)
-                comment = comment.replace('"', '').replace(';', '')
+                comment = decode_comment(comment)
                 frame = frame_by_plain_id(db, int(bo_id))
                 if frame:
                     frame.add_comment(comment)
@@ -120,7 +138,7 @@ def load(f, **options):  # type: (typing.IO, **typing.Any) -> canmatrix.CanMatri
                 (bo_id, tem_s, attrib, value) = line.split(',', 3)
                 frame_by_plain_id(db, int(bo_id)).add_attribute(
                     attrib.replace('"', ''),
-                    value.replace('"', ''))
+                    decode_value(value))
 
         elif mode == 'ParamNodeVal':
             if line.startswith("[END_PARAM_NODE_VAL]"):
@@ -128,14 +146,14 @@ def load(f, **options):  # type: (typing.IO, **typing.Any) -> canmatrix.CanMatri
             else:
                 (bu, attrib, value) = line.split(',', 2)
                 db.ecu_by_name(bu).add_attribute(
-                    attrib.replace('"', ''), value[1:-1])
+                    attrib.replace('"', ''), decode_value(value))
 
         elif mode == 'ParamNetVal':
             if line.startswith("[END_PARAM_NET_VAL]"):
                 mode = ''
             else:
                 (attrib, value) = line.split(',', 1)
-                db.add_attribute(attrib.replace('"', ''), value[1:-1])
+                db.add_attribute(attrib.replace('"', ''), decode_value(value))
 
         elif mode == 'ParamSigVal':
             if line.startswith("[END_PARAM_SIG_VAL]"):
@@ -144,7 +162,7 @@ def load(f, **options):  # type: (typing.IO, **typing.Any) -> canmatrix.CanMatri
                 (bo_id, tem_s, signal_name, attrib, value) = line.split(',', 4)
                 frame_by_plain_id(db, int(bo_id))\
                     .signal_by_name(signal_name)\
-                    .add_attribute(attrib.replace('"', ''), value[1:-1])
+                    .add_attribute(attrib.replace('"', ''), decode_value(value))
 
         elif mode == 'ParamSig':
             if line.startswith("[END_PARAM_SIG]"):
